@@ -468,6 +468,8 @@ def eval_model(ctx, policies, items):
 def to_ascii_host(h):
     """the name net/http connects to for a host spelled with non-ASCII letters (IDNA ToASCII, label by label; only labels on which
     IDNA 2003 and 2008 agree are generated)"""
+    for dot in "\u3002\uff0e\uff61":          # the other full stops UTS #46 treats as label separators
+        h = h.replace(dot, ".")
     h = h.strip().rstrip(".")
     if all(ord(ch) < 128 for ch in h):
         return h.lower()
@@ -475,9 +477,12 @@ def to_ascii_host(h):
 
 
 IDN_NAMES = ["b\u00fccher.example", "B\u00dcCHER.example", "xn--bcher-kva.example", "shop.b\u00fccher.example", "shop.xn--bcher-kva.example",
-             "\u043f\u0440\u0438\u043c\u0435\u0440.example", "xn--e1afmkfd.example", "m\u00fcnchen.example", "plain.example"]
+             "\u043f\u0440\u0438\u043c\u0435\u0440.example", "xn--e1afmkfd.example", "m\u00fcnchen.example", "plain.example",
+             # spellings the IDNA mapping step (UTS #46: case folding, width, NFKC, ignored code points, other full stops) folds onto the
+             # same name: fullwidth letters, a soft hyphen, a decomposed umlaut, an ideographic full stop
+             "\uff50lain.example", "pla\u00adin.example", "bu\u0308cher.example", "plain\u3002example", "\uff22\u00dcCHER.example"]
 IDN_RULES = ["xn--bcher-kva.example", "b\u00fccher.example", "*.xn--bcher-kva.example", "*.b\u00fccher.example", "xn--e1afmkfd.example",
-             "\u043f\u0440\u0438\u043c\u0435\u0440.example"]
+             "\u043f\u0440\u0438\u043c\u0435\u0440.example", "plain.example"]
 
 
 def idn_block(ctx, info, rng):
